@@ -95,6 +95,17 @@ def _unescape_tla(s):
 
 
 def run_tlc(module, cfg, env, name, workers=8, timeout=600, simulate=None, heap='8g', coverage=False):
+    """Runs TLC; a StackOverflowError inside TLC (frame sizes depend on JIT timing) is retried, never a verdict."""
+    last = None
+    for attempt in range(3):
+        r = _run_tlc(module, cfg, env, name, workers, timeout, simulate, heap, coverage)
+        if 'StackOverflowError' not in r.out:
+            return r
+        last = r
+    raise Infra('TLC StackOverflowError (3 attempts) on %s/%s:\n%s' % (module, name, last.out[-2000:]))
+
+
+def _run_tlc(module, cfg, env, name, workers=8, timeout=600, simulate=None, heap='8g', coverage=False):
     """Runs TLC on spec/<module>.tla with spec/<cfg>; returns TlcResult.  Raises Infra on tool failures."""
     ensure_dirs()
     meta = os.path.join(BUILD, 'tlc', name)
@@ -103,7 +114,9 @@ def run_tlc(module, cfg, env, name, workers=8, timeout=600, simulate=None, heap=
     e = dict(os.environ)
     e.update({k: str(v) for k, v in env.items()})
     e['JAVA_TOOL_OPTIONS'] = '-Xss64m'
-    cmd = ['java', '-XX:+UseParallelGC', '-Xmx' + heap, '-cp',
+    # -Xss must be on the command line: the launcher sizes the MAIN thread (which evaluates the cached constants and the
+    # initial states) before JAVA_TOOL_OPTIONS is read; with the default 1 MB the recursive operators overflow, flakily
+    cmd = ['java', '-Xss512m', '-XX:+UseParallelGC', '-Xmx' + heap, '-cp',
            '/opt/veriftools/tla/tla2tools.jar:/opt/veriftools/tla/CommunityModules-deps.jar', 'tlc2.TLC',
            '-workers', str(workers), '-metadir', meta, '-config', cfg, '-noGenerateSpecTE']
     if coverage:
@@ -145,11 +158,11 @@ def run_tlc(module, cfg, env, name, workers=8, timeout=600, simulate=None, heap=
             res.coverage[m.group(2) + '!' + m.group(1)] = [int(m.group(3)), int(m.group(4))]
     shutil.rmtree(meta, ignore_errors=True)
     # exit codes: 0 ok, 12 safety violation, 13 liveness, 10/11 assumption/deadlock; others = tool failure
-    if res.exit not in (0, 10, 11, 12, 13):
+    if res.exit not in (0, 10, 11, 12, 13) and 'StackOverflowError' not in res.out:
         raise Infra('TLC failed (exit %s) on %s/%s:\n%s' % (res.exit, module, name, res.out[-3000:]))
-    if res.precompute > max(workers, 1):
+    if res.precompute > max(workers, 1) and 'StackOverflowError' not in res.out:
         raise Infra('constant caching lost in %s/%s: PRECOMPUTE printed %d times' % (module, name, res.precompute))
-    if res.generated == 0 and not simulate:
+    if res.generated == 0 and not simulate and 'StackOverflowError' not in res.out:
         raise Infra('TLC produced no states on %s/%s:\n%s' % (module, name, res.out[-3000:]))
     return res
 
